@@ -46,12 +46,13 @@ Consume ==
             /\ UNCHANGED <<vars, drifted, runid>> /\ l' = l + 1
        [] ev.kind = "iter" ->
             /\ ~done /\ steps' = steps + 1
-            /\ \E pick \in Picks : Iterate(pick)
+            /\ <<Rec[l - 1].pick[1], Rec[l - 1].pick[2]>> \in Picks       \* the logged pick honours the contract
+            /\ Iterate(Rec[l - 1].pick)
             /\ done' = FALSE /\ Matches(ev)
             /\ l' = l + 1 /\ UNCHANGED <<drifted, runid>>
        [] ev.kind = "done" ->
             /\ ~done /\ steps' = steps + 1
-            /\ \E pick \in Picks : Iterate(pick)
+            /\ Iterate(Rec[l - 1].pick)
             /\ done' = TRUE /\ out' = ev.out
             /\ l' = l + 1 /\ UNCHANGED <<drifted, runid>>
        [] OTHER -> FALSE
